@@ -77,10 +77,11 @@ package atree
 //@           len(as(a.root, *ArrayMetaDataSlab).childrenHeaders) >= 2 && as(a.root, *ArrayMetaDataSlab).header.size <= maxThreshold &&
 //@           as(a.root, *ArrayMetaDataSlab).extraData != nil)
 
-//@ func (a *Array) set(index, value) (existing, err)  serves C01 C10
+//@ func (a *Array) set(index, value) (existing, err)  serves C01 C10 C11
 //@   requires value != nil
 //@   assume rootReady(a) because "tree invariant at the root (composition)"
 //@   ensures[C10] err == nil ==> notified > old(notified)
+//@   ensures[C11] err == nil && contV(value) ==> has(a.mutableElementIndex, vvid(unwV(value))) && a.mutableElementIndex[vvid(unwV(value))] == index
 //@   modifies heap, ghost.sto, ghost.stored, ghost.touched, ghost.notified, alloc
 
 //@ func (a *Array) Insert(index, value) (err)  serves C01 C10 C18
@@ -119,8 +120,23 @@ package atree
 //@   loop 1: invariant (forall id ValueID :: has(a.mutableElementIndex, id) == old(has(a.mutableElementIndex, id)) &&
 //@        (has(a.mutableElementIndex, id) ==> a.mutableElementIndex[id] == old(a.mutableElementIndex[id]) - ite(has(seen, id) && old(a.mutableElementIndex[id]) > index, 1, 0)))
 
+//@ ghost uwv : fn(v ref) ref
+//@ ghost vvid : fn(c ref) ValueID
 //@ iface WrapperValue.UnwrapAtreeValue() (v, size)
+//@   ensures v == uwv(recv)
 //@   pure
+
+//@ iface mutableValueNotifier.ValueID() (id)
+//@   ensures id == vvid(recv)
+//@   pure
+
+//@ func unwrapValue(v) (r, size)  serves C11
+//@   ensures r == unwV(v)
+//@   pure
+
+//@ # unwV(v): the value inside a wrapper (or v itself); contV(v): v denotes a mutable container (array or map), possibly wrapped
+//@ pred unwV(v Value) = ite(v != nil && is(v, WrapperValue), uwv(v), v)
+//@ pred contV(v Value) = unwV(v) != nil && is(unwV(v), mutableValueNotifier)
 
 //@ iface WrapperStorable.UnwrapAtreeStorable() (s)
 //@   ensures s == unw(recv)
@@ -128,6 +144,8 @@ package atree
 
 //@ # registering a child handle: records the child's index and installs the updater closure on the child; nothing else changes
 //@ func (a *Array) setCallbackWithChild(i, child, maxInlineSize)  serves C10 C11
+//@   ensures[C11] contV(child) ==> has(a.mutableElementIndex, vvid(unwV(child))) && a.mutableElementIndex[vvid(unwV(child))] == i
+//@   ensures[C11] !contV(child) ==> a.mutableElementIndex == old(a.mutableElementIndex)
 //@   ensures forall vid ValueID :: has(a.mutableElementIndex, vid) && a.mutableElementIndex[vid] != i ==> old(has(a.mutableElementIndex, vid)) && a.mutableElementIndex[vid] == old(a.mutableElementIndex[vid])
 //@   modifies a.mutableElementIndex, Array.parentUpdater, OrderedMap.parentUpdater, alloc
 
